@@ -206,6 +206,7 @@ func ruleWIN4(c *Checker) {
 		s    = "load(gbn.queueCfg.s)"
 	)
 	n := 0
+	seenTemplate := map[string]bool{}
 	for _, st := range w.Stores(fBase) {
 		fn := st.Parent()
 		n++
@@ -253,6 +254,7 @@ func ruleWIN4(c *Checker) {
 			return false
 		}
 		okk, why := false, ""
+		seenTemplate[fnName(fn)+"|"+val] = true
 		switch val {
 		case "((1+" + base + ")%" + s + ")":
 			okk, why = eqFact(base), "exact ACK: base+1 mod s under seq == base"
@@ -261,6 +263,10 @@ func ruleWIN4(c *Checker) {
 			why = "cumulative ACK: seq+1 mod s under containsSequence(base, top, seq)"
 		case top:
 			okk, why = eqFact(top), "NACK for top: base = top under seq == top"
+			if okk && inWindow() {
+				// containsSequence(base, top, top) is false by definition: this leg is dead
+				okk, why = false, "the NACK-for-top leg is only reached after the in-window test, which top never passes: a NACK for top (all packets received, ACKs lost) is ignored and the queue never drains"
+			}
 		case "param:seq":
 			okk = inWindow() || eqFact(base) || eqFact(top)
 			why = "NACK in window: base = seq under containsSequence(base, top, seq)"
@@ -271,6 +277,19 @@ func ruleWIN4(c *Checker) {
 	}
 	if n == 0 {
 		c.fail("WIN-4", "stores", token.NoPos, "no store to the window base found")
+	}
+	// the NACK handler must honour both a NACK for top and a NACK inside the window; the ACK handler must move the base
+	need := map[string]string{
+		"(*gbn.queue).processNACK|" + top:                   "a NACK for top empties the queue (all data received, ACKs lost)",
+		"(*gbn.queue).processNACK|param:seq":                "a NACK inside the window moves the base to it",
+		"(*gbn.queue).processACK|((1+param:seq)%" + s + ")": "a cumulative ACK moves the base past it",
+	}
+	for k, what := range need {
+		altOK := seenTemplate[k]
+		if strings.HasSuffix(k, "((1+param:seq)%"+s+")") && !altOK {
+			altOK = seenTemplate["(*gbn.queue).processACK|((1+"+base+")%"+s+")"]
+		}
+		c.decide(altOK, "WIN-4", "template present|"+k, token.NoPos, what, "missing base move: "+what)
 	}
 	c.floor("WIN-4", 4)
 }
@@ -428,6 +447,35 @@ func runC01(c *Checker) {
 				"the NACK does not carry the sequence number the receiver expects (or is sent on the acceptance leg)")
 		}
 	})
+	// a NACK built in a helper: the helper must only be called on the mismatch leg and use recvSeq
+	for _, fn := range w.Funcs {
+		if w.pkgShort(fn) != targetGBN || fn == rl {
+			continue
+		}
+		allInstrs(fn, func(in ssa.Instruction) {
+			st, ok := in.(*ssa.Store)
+			if !ok {
+				return
+			}
+			fa, ok := st.Addr.(*ssa.FieldAddr)
+			if !ok || structFieldOf(fa).Name() != "Seq" {
+				return
+			}
+			owner := namedOf(fa.X.Type())
+			if owner == nil || owner.Obj().Name() != "PacketNACK" || fn.Name() == "Deserialize" {
+				return
+			}
+			sites, closed := w.CallersOf(fn)
+			okk := closed && len(sites) > 0 && isLoadOfField(st.Val, fRecvSeq)
+			for _, s := range sites {
+				if s.Caller != rl || !rejectFact(s.Instr.Block()) {
+					okk = false
+				}
+			}
+			c.decide(okk, "WIN-1", "receiveLoop|NACK carries recvSeq", instrPos(st), "NACK.Seq = recvSeq, built by a helper that is only called on the mismatch leg",
+				"a NACK is built outside the mismatch leg of the receive loop or does not carry recvSeq")
+		})
+	}
 	// (e) on the reject leg: no delivery, no advance
 	for _, st := range stores {
 		if st.Parent() == rl && rejectFact(st.Block()) {
@@ -457,6 +505,10 @@ func runC01(c *Checker) {
 	ws.proveStores("INV")
 	ws.proveContainsArgs("INV")
 	c.floor("INV", 12)
+	// the window discipline is what keeps a resent window distinguishable from the next one
+	ruleWIN5(c)
+	ruleSEQSPACE(c, rg)
+	ruleSIZE(c)
 }
 
 // ruleWIN2: channel ownership.
@@ -636,6 +688,24 @@ func ruleWIN3(c *Checker, sl *ssa.Function) {
 
 func runC09(c *Checker) {
 	w := c.w
+	ruleWIN5(c)
+	rg := newRanger(w)
+	inv := gbnInvariants(w, rg)
+	proveFieldInvariants(c, rg, inv, "INV")
+	ruleSEQSPACE(c, rg)
+	ruleSIZE(c)
+	ws := newWindowSpace(c, rg)
+	ws.proveStores("INV")
+	ws.proveContainsArgs("INV")
+	ws.proveImmutable("INV")
+	c.floor("INV", 12)
+	ruleWIN4(c)
+	ruleORD1(c)
+}
+
+// ruleWIN5: admission to the send window.
+func ruleWIN5(c *Checker) {
+	w := c.w
 	sl := w.Func("(*gbn.GoBackNConn).sendPacketsForever")
 	add := w.Func("(*gbn.queue).addPacket")
 	size := w.Func("(*gbn.queue).size")
@@ -733,10 +803,16 @@ func runC09(c *Checker) {
 	}
 	c.floor("WIN-5", 4)
 
-	// SEQSPACE
-	rg := newRanger(w)
-	inv := gbnInvariants(w, rg)
-	proveFieldInvariants(c, rg, inv, "INV")
+}
+
+// ruleSEQSPACE: s = n + 1 at every definition.
+func ruleSEQSPACE(c *Checker, rg *Ranger) {
+	w := c.w
+	fN := w.Field("gbn.config.n")
+	if fN == nil {
+		c.anchorFail("gbn.config.n")
+		return
+	}
 	for _, fk := range []string{"gbn.config.s", "gbn.queueCfg.s"} {
 		f := w.Field(fk)
 		if f == nil {
@@ -795,18 +871,20 @@ func runC09(c *Checker) {
 	}
 	c.floor("SEQSPACE", 4)
 
-	// SIZE
+}
+
+// ruleSIZE: queue.size() is (top - base) mod s.
+func ruleSIZE(c *Checker) {
+	w := c.w
+	size := w.Func("(*gbn.queue).size")
+	if size == nil {
+		c.anchorFail("(*gbn.queue).size")
+		return
+	}
 	okSize, whySize := sizeShape(w, size)
 	c.decide(okSize, "SIZE", "queue.size|closed form", size.Pos(), whySize, "queue.size() is not (top - base) mod s in one of the accepted closed forms: "+whySize)
 	c.floor("SIZE", 1)
 
-	ws := newWindowSpace(c, rg)
-	ws.proveStores("INV")
-	ws.proveContainsArgs("INV")
-	ws.proveImmutable("INV")
-	c.floor("INV", 12)
-	ruleWIN4(c)
-	ruleORD1(c)
 }
 
 // sizeShape recognises size() = top-base if top>=base else top+(s-base).
@@ -844,8 +922,6 @@ func sizeShape(w *World, size *ssa.Function) (bool, string) {
 			forms = append(forms, "top-base if top>=base")
 		case (cv == "("+top+"+("+s+"-"+base+"))" || cv == "(("+s+"-"+base+")+"+top+")") && lss:
 			forms = append(forms, "top+(s-base) if top<base")
-		case cv == "((("+s+"+"+top+")-"+base+")%"+s+")":
-			forms = append(forms, "(s+top-base)%s")
 		default:
 			ok = false
 			forms = append(forms, "unrecognised: "+cv)
